@@ -46,6 +46,7 @@ def universe(cellname, gdim):
         "rt": E.RT(c, 2),
         "mrt": E.Mixed([E.RT(c, 2), P0]),
         "mn1": E.Mixed([P0, E.N1curl(c, 2)]),
+        "nm": E.Mixed([E.Mixed([P3, P1]), P1]),
     }
     t = {}
     for n, el in els.items():
